@@ -308,7 +308,10 @@ CLAIMED = {
             "holds what the old object held; (3) program-point obligation on send_msg: a new MsgSeqNum is journaled "
             "(committed) before its frame reaches the transport, so a successor of a process killed while sending never "
             "reuses a number. One genuine defect repaired (fix: 903f47f write-before-journal), one recorded as known "
-            "finding (C09-KF1 inbound SequenceReset leaves the stored inbound counter behind; pinned by the suite). The "
+            "finding (C09-KF1 inbound SequenceReset leaves the stored inbound counter behind; pinned by the suite), a second "
+            "one found in the last round (C09-KF2: the stored outbound counter is rewound while a ResendRequest is served - a "
+            "kill inside the replay loop lets a successor reuse numbers; reproduced on the real code, "
+            "findings/C09-KF2_kill_in_resend.py; needs the redesign of _process_resend). The "
             "two-endpoint sentence (session continues after reconnect without ResendRequest) is not decided.",
             "DESIGN.md 4/C09 and 9",
             "not decided: the continuation sentence (needs the peer, cf. C07); program-point obligation on inbound "
